@@ -17,7 +17,59 @@ import (
 // byte boundary the byte order of the keys is the numeric order of the blocks, the key extends
 // the prefix the readers iterate over by exactly 8 bytes, and the seek key the readers build
 // (binary.BigEndian.AppendUint64(prefix, n)) is the stored key.
-func keyOrderCheck(res *lib.Result) {
+//
+// The same facts are a theorem about the model's keys (Props.history_key_order: histKey = prefix ++
+// beBytes 8 n, bytesLt = bytes.Compare < 0); the model's keys are compared here with the real ones,
+// byte for byte, and the model's order with bytes.Compare on the real keys.
+func keyOrderCheck(res *lib.Result, driverPath string) {
+	var drv *lib.Driver
+	if driverPath != "" {
+		d, err := lib.StartDriver(driverPath)
+		if err != nil {
+			res.Fatalf("key check: Lean driver: %v", err)
+		} else {
+			drv = d
+			defer drv.Close()
+		}
+	}
+	modelKey := func(name string, prefix []byte, block uint64, real []byte) {
+		if drv == nil {
+			return
+		}
+		line := fmt.Sprintf("histkey %x", block)
+		for _, b := range prefix {
+			line += fmt.Sprintf(" %x", b)
+		}
+		ans, err := drv.Ask(line)
+		if err != nil {
+			res.Fatalf("key check: Lean driver died: %v", err)
+			drv = nil
+			return
+		}
+		res.Compared(1)
+		if ans != fmt.Sprintf("%x", real) {
+			res.Mismatch(lib.Mismatch{Sig: "model-history-key-bytes", Input: fmt.Sprintf("%s block %d", name, block), Model: ans, Impl: fmt.Sprintf("%x", real)})
+		}
+	}
+	modelLt := func(x, y uint64, real bool) {
+		if drv == nil {
+			return
+		}
+		ans, err := drv.Ask(fmt.Sprintf("keylt %x %x", x, y))
+		if err != nil {
+			res.Fatalf("key check: Lean driver died: %v", err)
+			drv = nil
+			return
+		}
+		res.Compared(1)
+		want := "0"
+		if real {
+			want = "1"
+		}
+		if ans != want {
+			res.Mismatch(lib.Mismatch{Sig: "model-history-key-order", Input: fmt.Sprintf("%d %d", x, y), Model: ans, Impl: want})
+		}
+	}
 	var blocks []uint64
 	for _, sh := range []uint{0, 8, 16, 24, 32, 40, 48, 56} {
 		b := uint64(1) << sh
@@ -51,9 +103,15 @@ func keyOrderCheck(res *lib.Result) {
 					res.Mismatch(lib.Mismatch{Sig: "assumption-history-key-layout", Input: f.name, Model: "prefix ++ 8 bytes", Impl: fmt.Sprintf("%x", kx)})
 					continue
 				}
+				if a == addrs[0] {
+					modelKey(f.name, p, x, kx)
+				}
 				for _, y := range blocks {
 					ky := f.at(a, y)
 					res.Compared(1)
+					if a == addrs[0] && f.name == fs[0].name {
+						modelLt(x, y, bytes.Compare(kx, ky) < 0)
+					}
 					if (bytes.Compare(kx, ky) < 0) != (x < y) {
 						res.Mismatch(lib.Mismatch{Sig: "assumption-history-key-order", Input: fmt.Sprintf("%s %d %d", f.name, x, y),
 							Model: "byte order = block order", Impl: fmt.Sprintf("%x / %x", kx, ky)})
